@@ -319,6 +319,13 @@ def run(chk, prog):
         if len(ins) == 1:
             # key aggregate built from both projections .0 and .1 of the argument
             okk = _key_components(cs, op_base(ins[0].args[1]), PASS, key_adt) == ["f:0", "f:1"]
+            if not okk and key_adt is None:
+                # the owned key is a clone of the whole pair the caller passed
+                trk = cs.trace(op_base(ins[0].args[1]), through_calls=PASS)
+                # (projections of local 1 are the coroutine's captured parameters, not components of the pair)
+                okk = bool(trk) and trk[-1][0] in ("arg", "place") and not any(
+                    info[0] != 1 and any(x.startswith("f:") and x[2:].isdigit() for x in info[1:]) for k, info in trk if k in ("place", "ref")) and \
+                    any("(alloc::string::String, alloc::string::String)" in cs.local_ty_s(info[0]) for k, info in trk if k in ("place", "ref") and info[0] != 1)
         # timeout == 0 -> return before insert
         tz = False
         from .panics import _cmp_facts
